@@ -582,7 +582,7 @@ func runC20(p *load.Program, r *core.Report) {
 			return fl == "disable" && okb && b == wantVal
 		}, func(in ssa.Instruction) bool {
 			ret, ok := in.(*ssa.Return)
-			return ok && errKind(ret.Results[errIdx]) == "nil"
+			return ok && maybeNilResult(ret, errIdx)
 		})
 		if bad == nil {
 			r.OK(rule3, key, fname(f), p.Pos(f.Pos()), inst, fmt.Sprintf("disable = %v on every successful path", wantVal))
